@@ -5,7 +5,8 @@ Import ListNotations.
 Local Open Scope N_scope.
 
 (* predicates a scenario can select / filter with *)
-Inductive pred := PAll | PNone | PPerm | PNotPerm | PWellFormed | PVerified | PNonMac | PLoc (l : N).
+Inductive pred := PAll | PNone | PPerm | PNotPerm | PWellFormed | PVerified | PNonMac | PLoc (l : N)
+                | PHas3P.   (* bundle.HasCaveat[*macaroon.Caveat3P]: macaroons carrying a third-party caveat *)
 Definition pred_fn (loc : N) (p : pred) (t : tok) : bool :=
   match p with
   | PAll => true | PNone => false
@@ -14,6 +15,7 @@ Definition pred_fn (loc : N) (p : pred) (t : tok) : bool :=
   | PVerified => match t with TVer _ _ => true | _ => false end
   | PNonMac => match t with TNon _ => true | _ => false end
   | PLoc l => match tok_mac t with Some m => m_loc m =? l | None => false end
+  | PHas3P => match tok_mac t with Some m => match m_tickets m with [] => false | _ => true end | None => false end
   end.
 
 (* filters (not predicates: they look at the whole token list): Bundle.IsMissingDischarge, AllowsAccess,
